@@ -29,14 +29,16 @@ class TxSan:
         self.bodies = bodies
         self.index = {id(b): i for i, b in enumerate(bodies)}
         self.sites = []  # (caller index, callee index, enable signal)
+        self.site_args = []  # argument structure passed at that call site
         for b in bodies:
             for meth, calls in b.method_calls.items():
                 cb = meth._body
                 if id(cb) not in self.index:
                     self.index[id(cb)] = len(self.bodies)
                     self.bodies.append(cb)
-                for _, _, en in calls:
+                for _, arg, en in calls:
                     self.sites.append((self.index[id(b)], self.index[id(cb)], en))
+                    self.site_args.append(arg)
         self.is_transaction = [False] * len(self.bodies)
         for t in transaction_manager.transactions:
             self.is_transaction[self.index[id(t._body)]] = True
@@ -58,11 +60,27 @@ class TxSan:
                         self.deps.append((self.index[id(b)], self.index[id(e)]))  # e is ready-dependent on b
 
     def signals(self):
-        return [b.run for b in self.bodies] + [b.ready for b in self.bodies] + [en for _, _, en in self.sites]
+        from amaranth import Value
+        self.with_args = []  # indices of the sites whose callee takes an argument (non-empty input layout)
+        arg_sigs = []
+        for k, (_, callee, _) in enumerate(self.sites):
+            try:
+                a, d = Value.cast(self.site_args[k]), Value.cast(self.bodies[callee].data_in)
+            except Exception:
+                continue
+            if len(d) and len(a) == len(d):
+                self.with_args.append(k)
+                arg_sigs.append(a)
+        self.din = [i for i in sorted({self.sites[k][1] for k in self.with_args})]
+        return [b.run for b in self.bodies] + [b.ready for b in self.bodies] + [en for _, _, en in self.sites] + arg_sigs + \
+            [Value.cast(self.bodies[i].data_in) for i in self.din]
 
     def check(self, vals):
         n, rec, case, tag = len(self.bodies), self.rec, self.case, self.tag
-        run, ready, en = vals[:n], vals[n:2 * n], vals[2 * n:]
+        ns = len(self.sites)
+        run, ready, en = vals[:n], vals[n:2 * n], vals[2 * n:2 * n + ns]
+        argv = dict(zip(self.with_args, vals[2 * n + ns:2 * n + ns + len(self.with_args)]))
+        dinv = dict(zip(self.din, vals[2 * n + ns + len(self.with_args):]))
         active = [bool(run[c]) and bool(e) for (c, _, _), e in zip(self.sites, en)]
         name = lambda i: self.bodies[i].name  # noqa: E731
         for i, b in enumerate(self.bodies):
@@ -78,6 +96,13 @@ class TxSan:
                         rec.count(f"{tag}_exclusive_method_cycles_with_several_call_sites")
                 elif nact >= 2:
                     rec.count(f"{tag}_nonexclusive_multi_caller_cycles")
+            if run[i] and i in dinv and not b.nonexclusive:
+                act = [k for k in ks if active[k] and k in argv]
+                if len(act) == 1 and nact == 1:
+                    rec.check(f"C05:{tag}:exclusive_method_sees_the_argument_of_its_active_call", dinv[i] == argv[act[0]], case=case,
+                              detail={"method": name(i), "caller": name(self.sites[act[0]][0]), "argument": argv[act[0]], "data_in": dinv[i]})
+                    if len([k for k in ks if k in argv]) >= 2:
+                        rec.count(f"{tag}_argument_routed_among_several_call_sites")
             if run[i]:
                 rec.count(f"{tag}_body_run_cycles")
                 rec.check(f"C03:{tag}:body_runs_only_when_ready", bool(ready[i]), case=case, detail={"body": name(i)})
